@@ -802,6 +802,62 @@ func c01JSONEdit(r *vf.Rand, data []byte, w c01Valid) ([]byte, string) {
 }
 
 // ---------------------------------------------------------------------------------------------
+// VerifyContent with contents derived from the signed payload: same-length substitutions (a byte
+// flipped, two bytes swapped, rotation), prefixes / extensions, the empty content, the payload
+// itself — on the attached message and on its detached form.  An acceptance must return the content
+// and the signature must validate over b64url(content) (resp. content for b64=false).
+
+func c01ContentCases(r *vf.Rand, v c01Valid) []c01Case {
+	if v.Case.Kind == "jwt" {
+		return nil
+	}
+	p := v.Spec.Payload
+	type cv struct {
+		name string
+		c    []byte
+	}
+	cp := func() []byte { return append([]byte{}, p...) }
+	var vs []cv
+	vs = append(vs, cv{"same", cp()}, cv{"empty", []byte{}}, cv{"extended", append(cp(), 'x')}, cv{"prefixed", append([]byte{'x'}, p...)})
+	if len(p) > 0 {
+		f := cp()
+		f[r.Intn(len(f))] ^= 1 << uint(r.Intn(8))
+		l := cp()
+		l[len(l)-1] ^= 0x01
+		vs = append(vs, cv{"flip", f}, cv{"flip-last", l}, cv{"truncated", cp()[:len(p)-1]},
+			cv{"rotated", append(cp()[1:], p[0])}, cv{"other-same-length", bytes.Repeat([]byte{'z'}, len(p))})
+	}
+	if len(p) > 1 {
+		s := cp()
+		s[0], s[len(s)-1] = s[len(s)-1], s[0]
+		vs = append(vs, cv{"swapped", s})
+	}
+	// the detached form of the message
+	detached := []byte(nil)
+	if v.Case.Kind == "jws-compact" {
+		if h, _, sg, ok := c01Split3(v.Case.Data); ok {
+			detached = c01Join3(h, nil, sg)
+		}
+	} else if m, ok := DecodeJSONMap(v.Case.Data); ok && m != nil {
+		delete(m, "payload")
+		detached, _ = json.Marshal(m)
+	}
+	var out []c01Case
+	for _, x := range vs {
+		for _, data := range [][]byte{v.Case.Data, detached} {
+			if data == nil {
+				continue
+			}
+			cs := v.Case
+			cs.Data, cs.HasContent, cs.Content = data, true, x.c
+			cs.Tag = "content-" + x.name + map[bool]string{true: "-attached", false: "-detached"}[len(data) == len(v.Case.Data) && string(data) == string(v.Case.Data)]
+			out = append(out, cs)
+		}
+	}
+	return out
+}
+
+// ---------------------------------------------------------------------------------------------
 // header presence × b64 grid (the shape of the defect fixed by 47ca076 and its mirrors): a general
 // JSON message with ONE genuine entry and junk entries anyone could add, where each of them has or
 // lacks a protected header and says b64 = false / true / nothing.
@@ -1071,6 +1127,11 @@ func runC01(c *vf.Ctx) {
 				}
 				for i := 0; i < mutPerValid; i++ {
 					c01Exec(c, d, c01Mutate(r, v, prev))
+				}
+				if (round+ai)%3 == 0 { // VerifyContent with contents derived from the signed payload
+					for _, cc := range c01ContentCases(r, v) {
+						c01Exec(c, d, cc)
+					}
 				}
 				// exhaustive byte substitution of short messages
 				// (quick: 16 messages with a reduced replacement set; thorough: every 4th worker does
